@@ -919,7 +919,11 @@ class SizeCommand(TestCommand):
     ]
 
     def args_as_tuple(self):
-        return ("size", self.arguments["comparator"], self.arguments["limit"])
+        limit = self.arguments["limit"]
+        if isinstance(limit, str) and limit.isdigit():
+            # a limit coming from a parsed script
+            limit = int(limit)
+        return ("size", self.arguments["comparator"], limit)
 
 
 class HasflagCommand(TestCommand):
